@@ -223,6 +223,8 @@ class Interp:
         self._modconst: dict[tuple[str, str], Any] = {}
         self.called: set[str] = set()
         self.sites: set[tuple[str, int, str]] = set()     # executed construction sites
+        self.set_order = "asc"       # iteration order imposed on sets: 'asc' | 'desc' (see C12-DET)
+        self.set_iterations = 0
 
     def _default_natives(self) -> None:
         """Standard-library callables the analysed code uses, as pure functions."""
@@ -258,7 +260,13 @@ class Interp:
             if not xs:
                 raise AbsRaise("StatisticsError: no median for empty data")
             return _st.median(xs)
+        def re_sub(pattern: Any, repl: Any, string: Any, count: int = 0, flags: int = 0) -> Any:
+            import re as _re
+            if not isinstance(string, str) or not isinstance(repl, str):
+                raise AbsRaise("TypeError: expected string or bytes-like object")
+            return _re.sub(pattern, repl, string, count=count, flags=flags)
         d = {
+            "re.sub": re_sub,
             "math.prod": prod,
             "itertools.combinations": lambda xs, k: list(_it.combinations(list(self.iterate(xs)), k)),
             "itertools.product": lambda *xs: list(_it.product(*[list(self.iterate(x)) for x in xs])),
@@ -429,6 +437,30 @@ class Interp:
                 pass
             self.exec_block(st.finalbody, env, fi)
             return
+        if isinstance(st, ast.Import):
+            for a in st.names:
+                env[a.asname or a.name.split(".")[0]] = ModuleRef(a.name if a.asname else a.name.split(".")[0])
+            return
+        if isinstance(st, ast.ImportFrom):
+            for a in st.names:
+                tgt = f"{st.module}.{a.name}"
+                if tgt in self.pm.functions:
+                    env[a.asname or a.name] = FuncRef(self.pm.functions[tgt])
+                elif tgt in self.pm.classes:
+                    env[a.asname or a.name] = ClassRef(self.pm.classes[tgt])
+                elif a.name in self.pm.class_by_name and not st.module.startswith(("typing", "collections")):
+                    env[a.asname or a.name] = ClassRef(self.pm.cls(a.name))
+                else:
+                    env[a.asname or a.name] = ModuleRef(tgt)
+            return
+        if isinstance(st, (ast.Global, ast.Nonlocal, ast.Assert, ast.Delete)):
+            if isinstance(st, ast.Assert):
+                if not self.truth(self.eval(st.test, env, fi)):
+                    raise AbsRaise("AssertionError", loc(fi.unit.path, st) if fi else "")
+                return
+            if isinstance(st, ast.Delete):
+                raise AnalysisError("ABSINT", "del statement outside fragment", loc(fi.unit.path, st) if fi else "")
+            return
         if isinstance(st, ast.Break):
             raise _Break()
         if isinstance(st, ast.Continue):
@@ -482,6 +514,15 @@ class Interp:
     def iterate(self, v: Any) -> Any:
         if is_native(v):
             return list(iter(v))  # type: ignore[call-overload]
+        if isinstance(v, (set, frozenset)):
+            # a set has no defined iteration order (str hashes vary with PYTHONHASHSEED): the
+            # evaluator imposes one, and a determinism check compares both extremes
+            self.set_iterations += 1
+            try:
+                seq = sorted(v, key=lambda x: (type(x).__name__, repr(x) if not isinstance(x, AObj) else self.to_str(x)))
+            except AnalysisError:
+                seq = sorted(v, key=lambda x: id(x))
+            return seq if self.set_order == "asc" else list(reversed(seq))
         if isinstance(v, (list, tuple, set, frozenset, dict, str, range)) or hasattr(v, "__next__"):
             return v
         if isinstance(v, type({}.keys())) or isinstance(v, type({}.values())) \
@@ -612,6 +653,13 @@ class Interp:
         if isinstance(v, OrdInt):
             return f"{{{v.tag}}}"
         if isinstance(v, EnumVal):
+            if self.pm.has_cls(v.cls):
+                ci = self.pm.cls(v.cls)
+                m = self.pm.method(ci, "__str__")
+                if m is not None:
+                    return self.call(m, [v])
+                if "str" in self.pm.base_names(ci) or "StrEnum" in self.pm.base_names(ci):
+                    return str(v.value)
             return f"{v.cls}.{v.name}"
         if isinstance(v, AObj):
             m = self.pm.method(self.pm.cls(v._cls), "__str__") if self.pm.has_cls(v._cls) else None
